@@ -8,6 +8,7 @@
 void harness(void)
 {
     xv_ghost_havoc(); xv_fd_havoc(); xv_epoll_havoc(); xv_xpoll_havoc(); xv_afd_havoc();
+    xv_afd_make_list(xv_g_n);
     int fd;
     int c0 = xv_close_calls;
     active_fd_put(fd);
